@@ -7,7 +7,13 @@ if _REPO not in sys.path:
     sys.path.insert(0, _REPO)
 
 
-def flow(sql, dialect="ansi", metadata=None, provider=None):
+def flow(sql, dialect="ansi", metadata=None, provider=None, lca=False):
+    """lca: the analysis runs inside a scope that switches LATERAL_COLUMN_ALIAS_REFERENCE on (the key is read while the
+    statement is analysed, i.e. inside get_column_lineage)"""
+    if lca:
+        from sqllineage.config import SQLLineageConfig
+        with SQLLineageConfig(LATERAL_COLUMN_ALIAS_REFERENCE=True):
+            return flow(sql, dialect, metadata, provider)
     from sqllineage.runner import LineageRunner
     warnings.simplefilter("ignore")
     try:
